@@ -6,12 +6,18 @@ import CoapVerif.Spec.SendQueue
 `Coap.Msg` and a scripted peer, printing the same canonical trace as harness/msg.c.
 
   msg <sess,…> <fates|-> <ev> <ev> …
-    sess   atI.atF.arfI.arfF.maxRtx.nstart                       (one per client session, `,` separated)
+    sess   atI.atF.arfI.arfF.maxRtx.nstart[.proto]               (one per client session, `,` separated; proto 1 = UDP (default),
+                                                                 2 = DTLS: `session->proto == COAP_PROTO_DTLS`, the record layer is the
+                                                                 identity (harness/msg.c); a line with a DTLS session is interpreted
+                                                                 with the extended model)
     fates  fate of the k-th datagram the endpoint transmits (`,` separated; beyond the list: dropped)
              d        lost (or its reply lost)
              a<D>     the peer's empty ACK arrives D ticks after the transmission   (CON only; a NON is not ACKed)
              r<D>     the peer's RST arrives D ticks after the transmission
              A<D>+<E> the ACK arrives twice, after D and after E ticks;   R<D>+<E> likewise for RST
+             p<D>     the peer answers a CON with a PIGGY-BACKED response (ACK, code 2.05, the request's message id and token)
+                      arriving D ticks after the transmission;  P<D>+<E>  the same arriving twice (the network duplicated it);
+                      a line with such a fate is interpreted with the extended model
              x        the socket write of this datagram FAILS (coap_socket_send returns -1: ECONNREFUSED, ENOBUFS, …); nothing
                       leaves; the attempt is printed as txf@T:S:C|N:MID:=.  A line with an `x` fate is interpreted with the
                       write-failure model `Coap.MsgW.stepW` (Model/MsgLayerW.lean); not together with S: / i: / k: events
@@ -25,7 +31,8 @@ import CoapVerif.Spec.SendQueue
            S:S:c|n:MID:R:TOK   application sends CON/NON with the explicit (2-byte) token TOK
            i:S             an ICMP error is read from the socket of session S (coap_session_disconnected_lkd(ICMP_ISSUE))
            k:SECS          coap_context_set_keepalive(ctx, SECS)
-         A line containing an S: / i: / k: event is interpreted with the extended model `Coap.MsgX.stepX`
+           p:S:MID:TOK     a piggy-backed response (ACK with code 2.05, message id MID, token TOK) arrives now
+         A line containing an S: / i: / k: / p: event is interpreted with the extended model `Coap.MsgX.stepX`
          (Model/MsgLayerX.lean: keepalive state, `coap_cancel_all_messages` as a pointer walk); every other line with
          `Coap.Msg.step` exactly as before.
   sq <ops…>               raw queue operations (see `sqStep`)
@@ -45,6 +52,7 @@ inductive Fate where
   | ack (d : List Nat)
   | rst (d : List Nat)
   | fail
+  | piggy (d : List Nat)
   deriving Repr
 
 structure Arrival where
@@ -53,6 +61,7 @@ structure Arrival where
   s : Nat
   isRst : Bool
   mid : Nat
+  piggy : Bool := false     -- an ACK that carries a response (its token is the request's: M does not look at it)
   deriving Repr
 
 structure Sim where
@@ -63,10 +72,11 @@ structure Sim where
   seen : Nat                -- number of outputs already scanned for transmissions
   lastWait : Nat
   es : List Nat := []       -- per logged wait (newest first): time from `now` to the earliest deadline in the queue (0: none)
-  xmode : Bool := false     -- the line is interpreted with the extended model; then (l, pt, prng, ka) is its state
+  xmode : Bool := false     -- the line is interpreted with the extended model; then (l, pt, prng, ka, dtls) is its state
   pt : Nat := 0
   prng : Nat := 0
   ka : List KA := []
+  dtls : List Bool := []
   wmode : Bool := false     -- the line has `x` fates: interpreted with the write-failure model; (l, wf, failed) is its state
   wf : List Bool := []
   failed : List Nat := []
@@ -78,7 +88,16 @@ def parseSess (w : String) : Option (List Sess) :=
   (w.split (· == ',')).toList.mapM fun p =>
     match nats p.toString '.' with
     | some [a, b, c, d, m, n] => some { atI := a, atF := b, arfI := c, arfF := d, maxRtx := m, nstart := n }
+    | some [a, b, c, d, m, n, pr] =>
+      if pr = 1 ∨ pr = 2 then some { atI := a, atF := b, arfI := c, arfF := d, maxRtx := m, nstart := n } else none
     | _ => none
+
+/-- per session: is it a DTLS session (7th field = 2)? -/
+def parseProto (w : String) : List Bool :=
+  (w.split (· == ',')).toList.map fun p =>
+    match nats p.toString '.' with
+    | some [_, _, _, _, _, _, pr] => pr == 2
+    | _ => false
 
 def parseFate (w : String) : Option Fate :=
   if w = "d" then some .drop
@@ -88,6 +107,8 @@ def parseFate (w : String) : Option Fate :=
     | 'r' :: r => (String.ofList r).toNat?.map fun d => .rst [d]
     | 'A' :: r => (nats (String.ofList r) '+').map .ack
     | 'R' :: r => (nats (String.ofList r) '+').map .rst
+    | 'p' :: r => (String.ofList r).toNat?.map fun d => .piggy [d]
+    | 'P' :: r => (nats (String.ofList r) '+').map .piggy
     | _ => none
 
 def parseFates (w : String) : Option (List Fate) :=
@@ -108,17 +129,18 @@ def react (sm : Sim) : Sim :=
         | [] => (Fate.drop, [])
         | f :: r => (f, r)
       let sm := { sm with fates := rest }
-      let add (sm : Sim) (isRst : Bool) (ds : List Nat) : Sim :=
-        ds.foldl (fun sm d => { sm with pend := insArr ⟨t + d, sm.seq, s, isRst, mid⟩ sm.pend, seq := sm.seq + 1 }) sm
+      let add (sm : Sim) (isRst : Bool) (ds : List Nat) (pg : Bool := false) : Sim :=
+        ds.foldl (fun sm d => { sm with pend := insArr ⟨t + d, sm.seq, s, isRst, mid, pg⟩ sm.pend, seq := sm.seq + 1 }) sm
       match f with
       | .drop => sm
       | .fail => sm          -- the write failed (the model consumed the same entry of its oracle): nothing reaches the peer
       | .ack ds => if con then add sm false ds else sm
       | .rst ds => add sm true ds
+      | .piggy ds => if con then add sm false ds true else sm
     | _ => sm) sm
 
 def evX (sm : Sim) (e : EvX) : Sim :=
-  let lx := stepX { l := sm.l, pingTimeout := sm.pt, prng := sm.prng, ka := sm.ka } e
+  let lx := stepX { l := sm.l, pingTimeout := sm.pt, prng := sm.prng, ka := sm.ka, dtls := sm.dtls } e
   react { sm with l := lx.l, pt := lx.pingTimeout, prng := lx.prng, ka := lx.ka }
 
 def evW (sm : Sim) (e : Ev) : Sim :=
@@ -147,7 +169,8 @@ def deliverUpTo : Nat → Sim → Nat → Sim
       if a.time ≤ target then
         let sm := { sm with pend := r }
         let sm := if a.time > sm.l.now then ev sm (.setNow a.time) else sm
-        let sm := ev sm (if a.isRst then .rxRst a.s a.mid else .rxAck a.s a.mid)
+        let sm := if a.piggy then evX sm (.rxAckP a.s a.mid 0)
+                  else ev sm (if a.isRst then .rxRst a.s a.mid else .rxAck a.s a.mid)
         deliverUpTo fuel sm target
       else sm
 
@@ -211,6 +234,9 @@ def applyEv (sm : Sim) (w : String) : Option Sim :=
     else if c = "c" then some (evX sm (.submitT s true mid r tok)) else if c = "n" then some (evX sm (.submitT s false mid r tok)) else none
   | ["i", s] => do let s ← s.toNat?; if sm.xmode then some (evX sm (.icmp s)) else none
   | ["k", secs] => do let secs ← secs.toNat?; if sm.xmode then some (evX sm (.keepalive secs)) else none
+  | ["p", s, mid, tok] => do
+    let s ← s.toNat?; let mid ← mid.toNat?; let tok ← tok.toNat?
+    if sm.xmode then some (evX sm (.rxAckP s mid tok)) else none
   | _ => none
 
 def showReason : Reason → String
@@ -245,12 +271,15 @@ def msgStep (args : List String) : String :=
   | sw :: fw :: evs =>
     match parseSess sw, parseFates fw with
     | some ss, some fs =>
-      let xmode := evs.any fun w => w.startsWith "S:" || w.startsWith "i:" || w.startsWith "k:"
+      let isPiggy (f : Fate) : Bool := match f with | .piggy _ => true | _ => false
+      let protos := parseProto sw
+      let xmode := (evs.any fun w => w.startsWith "S:" || w.startsWith "i:" || w.startsWith "k:" || w.startsWith "p:")
+        || fs.any isPiggy || protos.any id
       let isFail (f : Fate) : Bool := match f with | .fail => true | _ => false
       let wmode := fs.any isFail
       if xmode && wmode then "bad-op" else
       let sm0 : Sim := { l := init T0 ss, fates := fs, pend := [], seq := 0, seen := 0, lastWait := 0,
-                         xmode := xmode, ka := (initX T0 ss).ka, wmode := wmode, wf := fs.map isFail }
+                         xmode := xmode, ka := (initX T0 ss).ka, dtls := protos, wmode := wmode, wf := fs.map isFail }
       let rec loop (sm : Sim) (shown : Nat) (acc : List String) : List String → Option (List String)
         | [] => some acc
         | w :: ws =>
